@@ -25,6 +25,12 @@ fn arr<const N: usize>(v: &[u8]) -> [u8; N] {
     a.copy_from_slice(v);
     a
 }
+fn hh<T: std::hash::Hash>(x: &T) -> u64 {
+    use std::hash::Hasher;
+    let mut s = std::collections::hash_map::DefaultHasher::new();
+    x.hash(&mut s);
+    s.finish()
+}
 fn ch(c: Choice) -> bool {
     c.unwrap_u8() == 1
 }
@@ -122,6 +128,9 @@ define_ops! {
     bits_from_str_radix = |s: ST, r: W| pair(|| Bits::<B, L>::from_str_radix(&s, r), || Uint::<B, L>::from_str_radix(&s, r));
     bits_from_limbs = |a: U| pair(|| Bits::<B, L>::from_limbs(*a.as_limbs()), || Uint::<B, L>::from_limbs(*a.as_limbs()));
     bits_as_limbs = |a: U| pair(|| *Bits::from(a).as_limbs(), || *Uint::as_limbs(&a));
+    bits_from_str = |s: ST| pair(|| s.parse::<Bits<B, L>>(), || s.parse::<Uint<B, L>>());
+    bits_eq_hash = |a: U, b: U| pair(|| { let (x, y) = (Bits::from(a), Bits::from(b)); (x == y, x != y, hh(&x) == hh(&y), Bits::<B, L>::default() == Bits::from(Uint::<B, L>::ZERO), <Uint<B, L> as From<Bits<B, L>>>::from(x) == a, x.into_inner() == a, *x.as_uint() == a) }, || (a == b, a != b, hh(&a) == hh(&b), true, true, true, true));
+    bits_debug = |a: U| pair(|| format!("{:?}", Bits::from(a)), || format!("Bits({:?})", a));
     bits_not = |a: U, sh: N| pair(|| { let x = Bits::from(a); if sh == 0 { !x } else { !&x } }, || Uint::not(a));
     bits_and = |a: U, b: U, sh: N| pair(|| { let (x, y) = (Bits::from(a), Bits::from(b)); shapes!(sh, x, y, &, &=) }, || core::ops::BitAnd::bitand(a, b));
     bits_or = |a: U, b: U, sh: N| pair(|| { let (x, y) = (Bits::from(a), Bits::from(b)); shapes!(sh, x, y, |, |=) }, || core::ops::BitOr::bitor(a, b));
@@ -238,13 +247,13 @@ const BIN: &[Op] = &[
     Op::nt_checked_add, Op::nt_checked_sub, Op::nt_checked_mul, Op::nt_checked_div, Op::nt_checked_rem, Op::nt_checked_div_euclid, Op::nt_checked_rem_euclid,
     Op::nt_div_euclid, Op::nt_rem_euclid, Op::nt_saturating, Op::nt_saturating_add, Op::nt_saturating_sub, Op::nt_saturating_mul, Op::nt_wrapping_add,
     Op::nt_wrapping_sub, Op::nt_wrapping_mul, Op::nt_overflowing_add, Op::nt_overflowing_sub, Op::nt_overflowing_mul, Op::ni_div_floor, Op::ni_mod_floor,
-    Op::ni_gcd, Op::x_ni_lcm, Op::ni_is_multiple_of, Op::ni_div_rem, Op::ni_div_ceil, Op::ni_div_mod_floor, Op::ni_extended_gcd, Op::ct_cmp,
+    Op::bits_eq_hash, Op::ni_gcd, Op::x_ni_lcm, Op::ni_is_multiple_of, Op::ni_div_rem, Op::ni_div_ceil, Op::ni_div_mod_floor, Op::ni_extended_gcd, Op::ct_cmp,
 ];
 const BIN_SHAPED: &[Op] = &[Op::op_add, Op::op_sub, Op::op_mul, Op::op_div, Op::op_rem, Op::op_and, Op::op_or, Op::op_xor, Op::bits_and, Op::bits_or, Op::bits_xor];
 const UN: &[Op] = &[
     Op::bits_reverse_bits, Op::bits_as_le_bytes, Op::bits_to_be_bytes_vec, Op::bits_to_le_bytes, Op::bits_to_be_bytes, Op::bits_leading_zeros, Op::bits_leading_ones,
     Op::bits_trailing_zeros, Op::bits_trailing_ones, Op::bits_from_limbs, Op::bits_as_limbs, Op::nt_is_zero, Op::nt_to_le_bytes, Op::nt_to_be_bytes, Op::nt_checked_neg,
-    Op::nt_inv, Op::nt_wrapping_neg, Op::nt_to_primitive, Op::pi_counts, Op::pi_reverse_bits, Op::pi_swap_bytes, Op::ni_even_odd, Op::ni_inc_dec, Op::zeroize,
+    Op::nt_inv, Op::nt_wrapping_neg, Op::nt_to_primitive, Op::pi_counts, Op::pi_reverse_bits, Op::pi_swap_bytes, Op::ni_even_odd, Op::ni_inc_dec, Op::zeroize, Op::bits_debug,
 ];
 const SHIFT_N: &[Op] = &[
     Op::bits_checked_shl, Op::bits_checked_shr, Op::bits_overflowing_shl, Op::bits_overflowing_shr, Op::bits_wrapping_shl, Op::bits_wrapping_shr,
@@ -282,6 +291,23 @@ fn c20(r: &Runner) {
                 exec(l, bits, Op::nt_pow, &[a.clone(), bv.clone()]);
                 for c in [false, true] {
                     exec(l, bits, Op::ct_select, &[a.clone(), bv.clone(), V::B(c)]);
+                }
+            }
+        });
+        // pairs related by construction (a, !a, a+-1, -a, a/2, 2a, ...) over a larger unary universe
+        let (rv, rd) = pick(bits, if r.is_thorough() { 4000 } else { 700 }, &[]);
+        r.universe(&format!("{rd} x related operands: binary facades"), bits, rv.len(), |i, l| {
+            let a = vu(&rv[i]);
+            for b in related(bits, &rv[i]) {
+                let bv = vu(&b);
+                l.states(1);
+                for &op in BIN {
+                    exec(l, bits, op, &[a.clone(), bv.clone()]);
+                }
+                for &op in BIN_SHAPED {
+                    for sh in 0..6 {
+                        exec(l, bits, op, &[a.clone(), bv.clone(), V::n(sh)]);
+                    }
                 }
             }
         });
@@ -424,6 +450,11 @@ fn c20(r: &Runner) {
         r.universe("texts x radix 0..=66 for from_str_radix facades", bits, texts.len(), |i, l| {
             for radix in (0..=66u64).chain([255, 256, (1 << 32) + 10]) {
                 l.states(1);
+                if radix == 0 {
+                    for pre in ["", "0x", "0o", "0b", "0X"] {
+                        exec(l, bits, Op::bits_from_str, &[V::S(format!("{pre}{}", texts[i]))]);
+                    }
+                }
                 exec(l, bits, Op::bits_from_str_radix, &[V::s(texts[i]), V::N(radix as u128)]);
                 exec(l, bits, Op::nt_from_str_radix, &[V::s(texts[i]), V::N(radix as u128)]);
             }
